@@ -115,7 +115,7 @@ func c17(e *Env) {
 
 // optsLang is the term  newOptions(os...).lang .
 func (e *Env) optsLang() *ir.Term {
-	no := e.P.LookupFunc("v3/report", "newOptions")
+	no := e.newOptionsFunc()
 	if no == nil {
 		panic("newOptions not found")
 	}
@@ -134,6 +134,37 @@ func (e *Env) optsLang() *ir.Term {
 		panic("options has no lang field")
 	}
 	return ir.Field(ir.Call(no, ir.Param(1)), lang)
+}
+
+// newOptionsFunc identifies the options constructor by role: the package function of v3/report that takes
+// the variadic options slice and returns a pointer to a struct with a language field.
+func (e *Env) newOptionsFunc() *types.Func {
+	pk := e.P.Lib("v3/report")
+	nb := e.P.LookupFunc("v3/report", "NewBase")
+	if pk == nil || nb == nil {
+		return nil
+	}
+	optT := nb.Type().(*types.Signature).Params().At(1).Type()
+	var found *types.Func
+	sc := pk.Types.Scope()
+	for _, n := range sc.Names() {
+		fn, ok := sc.Lookup(n).(*types.Func)
+		if !ok || fn.Exported() {
+			continue
+		}
+		sig := fn.Type().(*types.Signature)
+		if sig.Recv() != nil || sig.Params().Len() != 1 || !sig.Variadic() || sig.Results().Len() != 1 || !types.Identical(sig.Params().At(0).Type(), optT) {
+			continue
+		}
+		if _, ok := sig.Results().At(0).Type().(*types.Pointer); !ok {
+			continue
+		}
+		if found != nil {
+			return nil
+		}
+		found = fn
+	}
+	return found
 }
 
 func namesFunc(e *Env, name string) *types.Func {
@@ -271,7 +302,7 @@ func (e *Env) formatFloatOf(x *ir.Term) *ir.Term {
 // language.English and applies every option to it; WithOptionsLanguage stores its argument.
 func (e *Env) optionsRules() {
 	c := e.C
-	no := e.P.LookupFunc("v3/report", "newOptions")
+	no := e.newOptionsFunc()
 	wl := e.P.LookupFunc("v3/report", "WithOptionsLanguage")
 	if no == nil || wl == nil {
 		c.Fail("options", "v3/report options", "", "newOptions / WithOptionsLanguage not found")
